@@ -224,6 +224,8 @@ def rule_rollback(ctx, rule='R04.7'):
 
 
 def run(ctx):
+    from . import c13 as _c13
+    _c13.rule_fixup_siblings(ctx)     # R13.2: pending collisions are re-indexed consistently after a merger (mass and momentum of later mergers)
     from . import c08 as _c08
     _c08.rule_direction(ctx)     # R08.8: encounter sub-stepping reaches the step boundary in both directions of time
     from . import edges
